@@ -39,6 +39,8 @@ Rules are phrased over this canonical form so that behaviour-preserving respelli
  N31 `names = set(CHAIN)` that is only asked `x in names` is CHAIN for that purpose
  N32 `if bool(e):` -> `if e:`;  N33 `t = E; X.a = t` ... reads of t -> `X.a = E` ... reads of X.a (store-to-load forwarding)
  N34 `g = (x for x in XS if C)` iterated once by `for y in g: BODY` -> `for x in XS: if C: BODY`
+ N57 a loop over an empty display is dropped;  N58 `for x in list(CHAIN)` (body does not write CHAIN) -> `for x in CHAIN`
+ N34c/d `for y in (b for a in XS for b in YS)` / `[b for a in XS for b in a]` -> nested loops
  N35 a flag that only records that the loop was left by break (`f = False; for ..: f = True; break` + `if A and not f: S`) -> for .. else: `if A: S`
  N18 a self-assignment `x = x` is dropped
  N6  `v = []` directly followed by `for t in xs: [if c:] v.append(e)` -> `v = [e for t in xs if c]`
@@ -393,6 +395,48 @@ class _Norm(ast.NodeTransformer):
         if isinstance(n.iter, ast.Call) and isinstance(n.iter.func, ast.Name) and n.iter.func.id == 'iter' and len(n.iter.args) == 1 \
                 and not n.iter.keywords:
             n.iter = n.iter.args[0]
+        # N57: a loop over an empty display never runs
+        if isinstance(n.iter, (ast.Tuple, ast.List)) and not n.iter.elts and not n.orelse:
+            return ast.copy_location(ast.Pass(), n)
+        # N58: a loop over a snapshot `list(CHAIN)` / `tuple(CHAIN)` of a collection that the body does not itself write is a loop
+        # over the collection
+        if (isinstance(n.iter, ast.Call) and isinstance(n.iter.func, ast.Name) and n.iter.func.id in ('list', 'tuple')
+                and len(n.iter.args) == 1 and not n.iter.keywords and _is_chain(n.iter.args[0]) and isinstance(n.iter.args[0], ast.Attribute)):
+            chain = ast.unparse(n.iter.args[0])
+            writes = False
+            for b in n.body:
+                for x in ast.walk(b):
+                    if isinstance(x, (ast.Attribute, ast.Subscript)) and not isinstance(x.ctx, ast.Load) and ast.unparse(x).startswith(chain):
+                        writes = True
+                    if isinstance(x, ast.Call) and isinstance(x.func, ast.Attribute) and ast.unparse(x.func.value) == chain:
+                        writes = True
+            if not writes:
+                n.iter = n.iter.args[0]
+        # N34d: `for y in [b for a in XS for b in a]: BODY` -> `for a in XS: for b in a: BODY[y:=b]` (the list is built first: only when
+        # BODY cannot change what XS reads)
+        it = n.iter
+        if (isinstance(it, ast.ListComp) and len(it.generators) == 2 and not any(g.is_async or g.ifs for g in it.generators)
+                and isinstance(it.elt, ast.Name) and isinstance(it.generators[1].target, ast.Name) and it.elt.id == it.generators[1].target.id
+                and isinstance(it.generators[0].target, ast.Name) and isinstance(it.generators[1].iter, ast.Name)
+                and it.generators[1].iter.id == it.generators[0].target.id
+                and isinstance(n.target, ast.Name) and not n.orelse and self.fn_stack):
+            probe = ast.ListComp(it.generators[0].target, [it.generators[0]])
+            fn = self.fn_stack[-1]
+            inside = {id(x) for x in ast.walk(it)}
+            gen_names = {it.generators[0].target.id, it.generators[1].target.id}
+            yv = n.target.id
+            clash = any(isinstance(x, ast.Name) and x.id in gen_names - {yv} and id(x) not in inside for x in ast.walk(fn))
+            if not clash and _filter_independent(probe, n.body):
+                g1, g2 = it.generators
+                bv = g2.target.id
+                if bv != yv:
+                    for b in n.body:
+                        for x in [x for x in ast.walk(b) if isinstance(x, ast.Name) and x.id == yv]:
+                            x.id = bv
+                g1.target.ctx = ast.Store()
+                g2.target.ctx = ast.Store()
+                inner = ast.copy_location(ast.For(g2.target, g2.iter, n.body, [], lineno=n.lineno), n)
+                return ast.copy_location(ast.For(g1.target, g1.iter, [inner], [], lineno=n.lineno), n)
         # N34c: `for y in (b for a in XS for b in YS): BODY` -> `for a in XS: for b in YS: BODY[y:=b]` (a generator: consumed lazily)
         it = n.iter
         if (isinstance(it, ast.GeneratorExp) and len(it.generators) == 2 and not any(g.is_async or g.ifs for g in it.generators)
